@@ -582,7 +582,7 @@ func pubHist(c func() (mangos.Socket, error), depth int) {
 					u.owed = append(u.owed, body)
 				}
 			}
-			cl := kit.Start("Send", func() (interface{}, error) { return nil, s.Send([]byte(body)) })
+			cl := kit.Start("Send", func() (interface{}, error) { return nil, kit.SendBytes(s, []byte(body)) })
 			kit.Quiesce()
 			if !cl.Done() || cl.Err != nil {
 				kit.Failf("pub-send-blocked", "Send done=%v %s (a slow subscriber must not hold the publisher up)", cl.Done(), kit.ErrName(cl.Err))
@@ -612,15 +612,15 @@ func pubFanout(c func() (mangos.Socket, error)) {
 	kit.Quiesce()
 	msgs := []string{"", "a", "\xff\x00b"}
 	// first burst of 2 from two concurrent senders
-	c1 := kit.Start("Send0", func() (interface{}, error) { return nil, s.Send([]byte(msgs[0])) })
-	c2 := kit.Start("Send1", func() (interface{}, error) { return nil, s.Send([]byte(msgs[1])) })
+	c1 := kit.Start("Send0", func() (interface{}, error) { return nil, kit.SendBytes(s, []byte(msgs[0])) })
+	c2 := kit.Start("Send1", func() (interface{}, error) { return nil, kit.SendBytes(s, []byte(msgs[1])) })
 	kit.Quiesce()
 	if !c1.Done() || !c2.Done() || c1.Err != nil || c2.Err != nil {
 		kit.Failf("pub-send", "Send: %v/%s %v/%s", c1.Done(), kit.ErrName(c1.Err), c2.Done(), kit.ErrName(c2.Err))
 	}
 	slow.Take(2)
 	kit.Quiesce()
-	c3 := kit.Start("Send2", func() (interface{}, error) { return nil, s.Send([]byte(msgs[2])) })
+	c3 := kit.Start("Send2", func() (interface{}, error) { return nil, kit.SendBytes(s, []byte(msgs[2])) })
 	slow.Take(1)
 	kit.Quiesce()
 	if !c3.Done() || c3.Err != nil {
